@@ -1,4 +1,4 @@
-(* Finding C16/C17-D14 (FIXED in the repo by commit d9276a9): with the state table as it was
+(* Finding C16/C17-D14 (FIXED in the repo by commit 59a9ae7): with the state table as it was
    before the fix, a swap-in requester that is restarted while waiting for the agreement stays in
    State_SwapInSender_AwaitAgreement for ever: the state had a NoOp action, was not FailOnrecover,
    and the negotiation timeout lives only in memory.  Refuted on the model for the pre-fix table
